@@ -55,6 +55,9 @@ type Faults struct {
 	Replay  bool    `json:"replay,omitempty"`
 	Tape    []int64 `json:"tape,omitempty"`
 	GCSteps []int64 `json:"gc_steps,omitempty"`
+	// Stalls: stall faults (task id, from step, to step): the task is not chosen
+	// to run in that window while any other task can run
+	Stalls [][3]int64 `json:"stalls,omitempty"`
 	// ClockJumps: injected clock jumps (step, nanoseconds forward)
 	ClockJumps [][2]int64 `json:"clock_jumps,omitempty"`
 }
